@@ -160,7 +160,7 @@ class BasicDBusProtocol(protocol.Protocol):
 
             lines = (self._buffer + data).split(self.authDelimiter)
             self._buffer = lines.pop(-1)
-            for line in lines:
+            for idx, line in enumerate(lines):
                 if self.transport.disconnecting:
                     # this is necessary because the transport may be
                     # told to lose the connection by a line within a
@@ -176,9 +176,14 @@ class BasicDBusProtocol(protocol.Protocol):
                         if self._dbusAuth.authenticationSucceeded():
                             self.guid = self._dbusAuth.getGUID()
                             self._dbusAuth = None
+                            # everything after the final handshake line is
+                            # binary message data, whatever it contains
+                            self._buffer = self.authDelimiter.join(
+                                lines[idx + 1:] + [self._buffer])
                             self.setAuthenticationSucceeded()
                             if self._buffer:
                                 self.dataReceived(b'')
+                            return
                     except error.DBusAuthenticationFailed as e:
                         log.msg('DBus Authentication failed: ' + str(e))
                         self.transport.loseConnection()
